@@ -124,6 +124,21 @@ def fileSeekOFSLoop (dbs p : Nat) : (fuel : Nat) → (h : FileH) → (offset : N
     else return (rcOK, h)
 
 mutual
+/-- the header struct after the refresh of `adfFileFlush`: the fields the directory layer owns (chain link, parent,
+    protection, name, comment) are taken over from the block `d` as it is on the disk now -/
+def refreshed (hdr d : Blk) : Blk :=
+  ((((((hdr.setW F_nextSameHash (d.w F_nextSameHash)).setW F_parent (d.w F_parent)).setW F_access (d.w F_access)).setByte O_nameLen d.nameLen).setBytes
+    O_name (d.bytes O_name 31)).setByte O_commLen d.commLen).setBytes O_comment (d.bytes O_comment 80)
+
+/-- the header part of `adfFileFlush`: re-read the header, refresh, stamp, write -/
+def fileFlushHdr (h : FileH) : Prog (RC × FileH) := do
+  let (rc, d) ← readEntryBlock h.vol (h.hdr.w F_headerKey)
+  if rc ≠ rcOK then return (rc, h)
+  let h := { h with hdr := refreshed h.hdr d }
+  let hdr := stampDates h.hdr (← now)
+  let (rc, hdr) ← writeFileHdrBlock h.vol (hdr.w F_headerKey) hdr
+  return (rc, { h with hdr := hdr })
+
 /-- `adfFileFlush` -/
 def fileFlush (h : FileH) : Prog (RC × FileH) := do
   if !h.modeWrite then return (rcOK, h)
@@ -145,17 +160,9 @@ def fileFlush (h : FileH) : Prog (RC × FileH) := do
       return (rc, { h with curData := data })
     else return (rcOK, h) : Prog (RC × FileH))
   if rc ≠ rcOK then return (rc, h)
-  -- the fields the directory layer owns are taken over from the block as it is on the disk now
-  let (rc, d) ← readEntryBlock h.vol (h.hdr.w F_headerKey)
+  let (rc, h) ← fileFlushHdr h
   if rc ≠ rcOK then return (rc, h)
-  let hdr := ((h.hdr.setW F_nextSameHash (d.w F_nextSameHash)).setW F_parent (d.w F_parent)).setW F_access (d.w F_access)
-  let hdr := (hdr.setByte O_nameLen d.nameLen).setBytes O_name (d.bytes O_name 31)
-  let hdr := (hdr.setByte O_commLen d.commLen).setBytes O_comment (d.bytes O_comment 80)
-  let h := { h with hdr := hdr }
-  let hdr := stampDates h.hdr (← now)
-  let (rc, hdr) ← writeFileHdrBlock h.vol (hdr.w F_headerKey) hdr
-  let h := { h with hdr := hdr }
-  if rc ≠ rcOK then return (rc, h)
+  let hdr := h.hdr
   if isDIRCACHE vc.dosType then
     let (rc, parent) ← readEntryBlock h.vol (hdr.w F_parent)
     if rc ≠ rcOK then return (rc, h)
